@@ -30,6 +30,9 @@ pub fn check(tier: Tier) -> Check {
     // the same / fewer / other subscription identifiers, messages no stream takes
     parts.push(Part::new("C09/qos2", json!({"depth": tier.pick(4, 5), "two": true}), 0, tier.pick(40, 300)));
     parts.push(Part::new("C09/qos2", json!({"depth": tier.pick(5, 6), "rel_forms": true}), 0, tier.pick(40, 300)));
+    // second connection (default CONNECT) of a Context whose first CONNECT announced Receive Maximum 2:
+    // three inbound exchanges open at once are fine now
+    parts.push(Part::new("C09/qos2", json!({"depth": tier.pick(5, 6), "flavour": 9, "ids": [1, 2, 3]}), 0, tier.pick(40, 300)));
     // the bookkeeping across a reconnect: kept while the session lives, forgotten when it expired
     parts.push(Part::new("C09/reset", json!({}), 0, 60));
     parts.push(Part::new("C09/wide", json!({"n": tier.pick(4096, 65535)}), 0, 300));
